@@ -294,7 +294,7 @@ class TypedNode(Node):
         if isinstance(child, Node):  # TypedNode):
             if deep is None:
                 deep = False
-            if deep and data_id is not None or node_id is not None:
+            if deep and (data_id is not None or node_id is not None):
                 raise ValueError("Cannot set ID for deep copies.")
             source_node = child
             if source_node._tree is self._tree:
@@ -304,7 +304,7 @@ class TypedNode(Node):
                     )
             else:
                 pass
-            if data_id and data_id != source_node._data_id:
+            if data_id is not None and data_id != source_node._data_id:
                 raise UniqueConstraintError(f"data_id conflict: {source_node}")
             # The copy is a clone, i.e. it shares the (possibly custom) data_id
             data_id = source_node._data_id
